@@ -24,6 +24,13 @@ HasT(t) == t \notin {B("int"), B("string")}
 GRecords == UNION {{[k |-> "grecord", fields |-> [i \in 1..n |-> [n |-> FNames[i], t |-> ts[i]]]] :
                       ts \in {f \in [1..n -> GFT] : \E i \in 1..n : HasT(f[i])}} : n \in 1..(IF Big THEN 3 ELSE 2)}
 
+\* names that are predeclared identifiers of Go (functions and types), but ordinary names in Folang: fields keep their names
+GoNames == <<<<"min", "max", "clear">>, <<"len", "cap", "new">>, <<"append", "copy", "string">>, <<"error", "any", "print">>>>
+NamedRecords == {[k |-> "record", fields |-> [i \in 1..3 |-> [n |-> GoNames[j][i], t |-> <<B("int"), B("string"), B("bool")>>[i]]]] : j \in 1..Len(GoNames)}
+
+\* ... and top-level functions keep theirs (a Go client calls them by the source name)
+NamedFuncs == {[k |-> "namedfunc", name |-> n] : n \in {"min", "max", "clear"}}      \* (not new / len: the assertions of the other cases in the package use those builtins)
+
 PT == {B("int"), B("string"), <<"slice", B("int")>>, <<"tuple", <<B("int"), B("string")>>>>,
        <<"tuple", <<B("int"), <<"tuple", <<B("string"), B("bool")>>>>>>>>, <<"tuple", <<<<"tuple", <<B("int"), B("string")>>>>, B("bool")>>>>}
 CNames == <<"A", "B", "C">>
@@ -46,7 +53,7 @@ Funcs == UNION {{[k |-> "func", params |-> ps, res |-> r] : ps \in [1..n -> AT],
 Vars == {[k |-> "var", t |-> t] : t \in {B("int"), B("string"), B("bool")}}
 
 LamVars == UNION {{[k |-> "lamvar", params |-> ps, res |-> r] : ps \in [1..n -> {B("int"), B("string")}], r \in {B("int"), B("string")}} : n \in 1..2}
-Decls == Records \cup GRecords \cup RecGroups \cup Unions \cup Unions2 \cup Funcs \cup Vars \cup LamVars
+Decls == Records \cup NamedRecords \cup NamedFuncs \cup GRecords \cup RecGroups \cup Unions \cup Unions2 \cup Funcs \cup Vars \cup LamVars
 Rows == {[k |-> d.k, fo |-> Fo(d), asserts |-> Surface(d)] : d \in Decls}
 ASSUME ndJsonSerialize(OutFile, SetToSeq(Rows))
 ASSUME PrintT(<<"CASES", Cardinality(Rows)>>)
